@@ -20,8 +20,9 @@ RULE = (
     "with_build_arg) from ANY builder created so far and build() of any builder (the built instance joins the instance list; "
     "after each build the dict returned by custom_args is scribbled on); every instance is run once more at the end. Executed on "
     "the REAL classes with selene_sim.build and SeleneInstance replaced by recorders and tqdm by a flag; observed = the keyword "
-    "arguments of every selene_sim.build and run_shots call (simulator by class and random_seed at call time, runtime/error "
-    "model/event hook by object identity, which build produced the SeleneInstance that is run, whether tqdm wrapped the stream). "
+    "arguments of every selene_sim.build and run_shots call (simulator by class and random_seed at call time; runtime/error "
+    "model/event hook — user-supplied SimpleRuntime / DepolarizingErrorModel / NoEventHook objects shared between configurations, or "
+    "the defaults — by object identity and by their own random_seed at call time, which build produced the SeleneInstance that is run, whether tqdm wrapped the stream). "
     "non-trivial = some instance is run after a later derivation that re-seeds an instance sharing its "
     "simulator lineage, or after >=3 later derivations; distinct by request line"
 )
@@ -33,7 +34,8 @@ ASSUMPTIONS = [
     "the user does not mutate a simulator object after handing it to with_simulator",
 ]
 MANIFEST = {
-    "level_text": "Lean theorems over all histories of user-simulator construction, instance derivations (16 methods) from any existing "
+    "level_text": "Lean theorems over all histories of user simulator / runtime / error-model / event-hook construction (two object "
+    "heaps: every component selene reads a random_seed from), instance derivations (16 methods) from any existing "
     "instance, builder derivations (4 methods) from any existing builder, build() and run(), on the repaired code (fix 1c5ff9f): "
     "every instance existing at any point keeps exactly the same run_shots arguments and build origin under every continuation "
     "(derive_preserves_earlier), every builder keeps its selene_sim.build arguments (builder_derive_preserves_earlier); an "
@@ -60,10 +62,11 @@ UNMODELLED = [
 
 DERIVS_NAT = {"shots": "with_shots", "shotoffset": "with_shot_offset", "shotincrement": "with_shot_increment",
               "nqubits": "with_n_qubits", "nprocesses": "with_n_processes"}
-DEFAULTS = {"simKind": "quest", "simSeed": None, "runtime": 0, "errorModel": 0, "eventHook": 0, "shots": 1,
+DEFAULTS = {"simKind": "quest", "simSeed": None, "runtime": 0, "runtimeSeed": None, "errorModel": 0, "errorModelSeed": None,
+            "eventHook": 0, "eventHookSeed": None, "shots": 1,
             "verbose": 0, "timeout": None, "seed": None, "shotOffset": 0, "shotIncrement": 1, "nProcesses": 1,
             "progressBar": 0, "origin": None}
-FIELDS = ["simKind", "simSeed", "runtime", "errorModel", "eventHook", "nQubits", "shots", "verbose", "timeout", "seed",
+FIELDS = ["simKind", "simSeed", "runtime", "runtimeSeed", "errorModel", "errorModelSeed", "eventHook", "eventHookSeed", "nQubits", "shots", "verbose", "timeout", "seed",
           "shotOffset", "shotIncrement", "nProcesses", "progressBar", "origin"]
 
 
@@ -86,6 +89,8 @@ def _op_sexp(op):
         return f"(newsim {op[1]} {_show(op[2])})"
     if t == "run":
         return f"(run {op[1]})"
+    if t == "newcomp":
+        return f"(newcomp {_show(op[2])})"
     if t == "build":
         return f"(build {op[1]} {op[2]})"
     if t == "bderive":
@@ -144,7 +149,7 @@ def _run_real(case):
     import guppylang.emulator.builder as B
     import guppylang.emulator.instance as I
     from guppylang.emulator.instance import EmulatorInstance
-    from selene_sim.backends.bundled_error_models import IdealErrorModel
+    from selene_sim.backends.bundled_error_models import DepolarizingErrorModel
     from selene_sim.backends.bundled_runtimes import SimpleRuntime
     from selene_sim.backends.bundled_simulators import Coinflip, Quest, Stim
     from selene_sim.event_hooks import NoEventHook
@@ -156,16 +161,15 @@ def _run_real(case):
         return _FakeSelene(lambda kw: rec(kw, origin))
 
     base = EmulatorInstance(_instance=make_fake(None), _n_qubits=case["n"])  # type: ignore[arg-type]
-    pools = {"runtime": [base._options._runtime, SimpleRuntime(), SimpleRuntime()],
-             "errorModel": [base._options._error_model, IdealErrorModel(), IdealErrorModel()],
-             "eventHook": [base._options._event_hook, NoEventHook(), NoEventHook()]}
-    defaults = {"runtime": [], "errorModel": [], "eventHook": []}  # default objects of built instances
+    # component heap: index 0 = any default-constructed runtime / error model / event hook; user objects are appended
+    comps = [None]
+    defaults = [base._options._runtime, base._options._error_model, base._options._event_hook]
 
-    def idx(pool, obj):
-        for i, o in enumerate(pools[pool]):
+    def idx(obj):
+        for i, o in enumerate(comps):
             if o is obj:
                 return i
-        if any(o is obj for o in defaults[pool]):
+        if any(o is obj for o in defaults):
             return 0
         return f"?{type(obj).__name__}"
 
@@ -180,8 +184,9 @@ def _run_real(case):
     def rec(kw, origin):
         t = kw["timeout"]
         pending.append({"simKind": kind(kw["simulator"]), "simSeed": kw["simulator"].random_seed,
-             "runtime": idx("runtime", kw["runtime"]), "errorModel": idx("errorModel", kw["error_model"]),
-             "eventHook": idx("eventHook", kw["event_hook"]), "nQubits": kw["n_qubits"], "shots": kw["n_shots"],
+             "runtime": idx(kw["runtime"]), "runtimeSeed": getattr(kw["runtime"], "random_seed", None),
+             "errorModel": idx(kw["error_model"]), "errorModelSeed": getattr(kw["error_model"], "random_seed", None),
+             "eventHook": idx(kw["event_hook"]), "eventHookSeed": getattr(kw["event_hook"], "random_seed", None), "nQubits": kw["n_qubits"], "shots": kw["n_shots"],
              "verbose": int(bool(kw["verbose"])), "timeout": None if t is None else int(t.total_seconds()),
              "seed": kw["random_seed"], "shotOffset": kw["shot_offset"], "shotIncrement": kw["shot_increment"],
              "nProcesses": kw["n_processes"], "origin": origin})
@@ -216,6 +221,13 @@ def _run_real(case):
                 k = op[1]
                 cls = simcls[k] if k in simcls else _custom(int(k[1:]))
                 sims.append(cls(random_seed=op[2]))
+            elif t == "newcomp":
+                if op[1] == "runtime":
+                    comps.append(SimpleRuntime(random_seed=op[2]))
+                elif op[1] == "errormodel":
+                    comps.append(DepolarizingErrorModel(random_seed=op[2], p_1q=0.01, p_meas=0.02))
+                else:
+                    comps.append(NoEventHook())
             elif t == "run":
                 cur[0], cur[1] = op[1], 0
                 del pending[:]
@@ -236,8 +248,7 @@ def _run_real(case):
             elif t == "build":
                 cur[0] = op[1]
                 new = builders[op[1]].build(None, op[2])  # type: ignore[arg-type]
-                for pool, attr in (("runtime", "_runtime"), ("errorModel", "_error_model"), ("eventHook", "_event_hook")):
-                    defaults[pool].append(getattr(new._options, attr))
+                defaults.extend([new._options._runtime, new._options._error_model, new._options._event_hook])
                 insts.append(new)
                 sims.append(None)  # model heap: the built instance's fresh default simulator
                 args = builders[op[1]].custom_args
@@ -259,11 +270,11 @@ def _run_real(case):
                 elif n == "timeout":
                     new = e.with_timeout(None if d[1] is None else datetime.timedelta(seconds=d[1]))
                 elif n == "runtime":
-                    new = e.with_runtime(pools["runtime"][d[1]])
+                    new = e.with_runtime(comps[d[1]] if d[1] else base._options._runtime)
                 elif n == "errormodel":
-                    new = e.with_error_model(pools["errorModel"][d[1]])
+                    new = e.with_error_model(comps[d[1]] if d[1] else base._options._error_model)
                 elif n == "eventhook":
-                    new = e.with_event_hook(pools["eventHook"][d[1]])
+                    new = e.with_event_hook(comps[d[1]] if d[1] else base._options._event_hook)
                 elif n == "simulator":
                     new = e.with_simulator(sims[d[1]])
                 elif n in ("statevector", "coinflip", "stabilizer"):
@@ -287,6 +298,7 @@ def _oracle(case):
     recs = [dict(DEFAULTS, nQubits=case["n"])]
     brecs = [{"name": None, "buildDir": None, "verbose": 0, "custom": []}]
     user_sims = {}
+    comp_seed = [None]  # by content at creation
     heap_n = 1
     log, blog = [], []
     for op in case["ops"]:
@@ -294,6 +306,8 @@ def _oracle(case):
         if t == "newsim":
             user_sims[heap_n] = (op[1], op[2])
             heap_n += 1
+        elif t == "newcomp":
+            comp_seed.append(op[2])
         elif t == "run":
             log.append(_entry(op[1], recs[op[1]]))
         elif t == "bderive":
@@ -334,6 +348,8 @@ def _oracle(case):
                        "nprocesses": "nProcesses", "verbose": "verbose", "timeout": "timeout", "runtime": "runtime",
                        "errormodel": "errorModel", "eventhook": "eventHook", "progressbar": "progressBar"}[n]
                 r[key] = d[1]
+                if key in ("runtime", "errorModel", "eventHook"):
+                    r[key + "Seed"] = comp_seed[d[1]]
             recs.append(r)
     return " ".join(log) + " || " + " ".join(blog)
 
@@ -347,8 +363,10 @@ def _eff(log: str) -> str:
             continue
         i, rest = tok.split(":", 1)
         f = rest.split(",")
-        if len(f) == len(FIELDS) and f[FIELDS.index("simSeed")] == "none":
-            f[FIELDS.index("simSeed")] = f[FIELDS.index("seed")]
+        if len(f) == len(FIELDS):
+            for comp in ("simSeed", "runtimeSeed", "errorModelSeed"):
+                if f[FIELDS.index(comp)] == "none":
+                    f[FIELDS.index(comp)] = f[FIELDS.index("seed")]
         out.append(i + ":" + ",".join(f))
     return " ".join(out)
 
@@ -358,6 +376,7 @@ def _gen(rng, length):
     n = rng.randrange(1, 6)
     ops = []
     n_inst, heap_n, user, n_b = 1, 1, [], 1
+    comp_kinds = ["default"]  # component heap: kind of each object
     for _ in range(length):
         c = rng.random()
         if c < 0.22:
@@ -374,6 +393,12 @@ def _gen(rng, length):
                 n_b += 1
             continue
         c = rng.random()
+        if c < 0.07:
+            ck = rng.choice(["errormodel", "errormodel", "runtime", "eventhook"])
+            ops.append(["newcomp", ck, None if ck == "eventhook" else rng.choice([None, rng.randrange(100)])])
+            comp_kinds.append(ck)
+            continue
+        c = rng.random()
         if c < 0.08:
             k = rng.choice(["quest", "coinflip", "stim", f"c{rng.randrange(3)}", f"c{rng.randrange(3)}"])
             ops.append(["newsim", k, rng.choice([None, None, rng.randrange(100)])])
@@ -384,7 +409,7 @@ def _gen(rng, length):
         else:
             i = _pick(rng, n_inst)
             k = rng.choice(["seed"] * 6 + ["shots", "shotoffset", "shotincrement", "nqubits", "nprocesses", "verbose", "timeout", "progressbar",
-                                         "runtime", "errormodel", "eventhook"] + ["simulator"] * 3
+                                         "runtime", "errormodel", "errormodel", "errormodel", "eventhook"] + ["simulator"] * 3
                            + ["statevector", "coinflip", "stabilizer"])
             if k == "simulator" and not user:
                 k = "seed"
@@ -400,7 +425,8 @@ def _gen(rng, length):
             elif k == "timeout":
                 d = [k, rng.choice([None, rng.randrange(1, 100)])]
             elif k in ("runtime", "errormodel", "eventhook"):
-                d = [k, rng.randrange(3)]
+                cands = [0] + [ix for ix, ck in enumerate(comp_kinds) if ck == k]
+                d = [k, rng.choice(cands[1:] or cands) if rng.random() < 0.8 else 0]
             elif k == "simulator":
                 d = [k, rng.choice(user)]
             else:
